@@ -19,6 +19,7 @@
 // std
 #include <queue>
 #include <atomic>
+#include <mutex>
 
 // romea
 #include "romea_core_common/time/Time.hpp"
@@ -51,6 +52,7 @@ private:
 
   Duration lastPeriod_;
   SharedVariable<Duration> lastDuration_;
+  mutable std::mutex mutex_;
   std::queue<long long int> periods_;
   long long int periodsSum_;
   std::atomic<double> rate_;
